@@ -12,6 +12,7 @@ import (
 
 	fixgen "github.com/b2broker/simplefix-go/tests/fix44"
 	"vlib"
+	"vsched"
 )
 
 var c14IDs = []string{"a", "=", "1=2", "112=x", "10=000", "34=9", " ", "aloha", "8=FIX.4.4", "\x80\xfe\xff", "\x00", "35=0", strings.Repeat("L", 300), "0", "112="}
@@ -96,6 +97,11 @@ func c14Cfgs(tier string) []*histCfg {
 			// TestRequest that follows crosses it on the wire
 			event{Name: "Silence(32 s)", Do: func(w *world) { time.Sleep(32 * time.Second) }},
 		)
+		// the peer logs out and on again on the same connection: still exactly one answer per request afterwards
+		alpha = append(alpha, event{Name: "Logout+Logon", Do: func(w *world) {
+			w.in(w.msg("5"))
+			w.in(w.msg("A", "98=0", "108=30"))
+		}})
 		// back-to-back: two (three) messages are queued before the dispatcher runs
 		q := func(name string, exp []string, build func(w *world) [][]byte) {
 			mon.exp[name] = exp
@@ -124,12 +130,88 @@ func c14Cfgs(tier string) []*histCfg {
 	return cfgs
 }
 
+// ---- C14, schedule part: "before any later inbound message is answered" behind a slow writer ----
+// The peer stops reading for a while: the outgoing queue (4 slots) fills up while TestRequests keep
+// arriving; then it reads again.  Every schedule within delay bound 1 (Q) / 2 (T): the Heartbeats leave in
+// the order of the requests, one each.
+
+func c14StallScenario(name string, p map[string]any) *schedScenario {
+	role := pstr(p, "role")
+	n := pint(p, "n")
+	var outs []outMsg
+	sc := &schedScenario{Name: "c14s", Params: p, Strict: true, Delay: true}
+	sc.Body = func() {
+		var w *world
+		vsched.Deterministic(func() {
+			w = newWorld(wcfg{Role: role, Buf: 4, HbMin: 5, HbMax: 30, HbInt: 30})
+			w.logonOK(30)
+			vsched.Settle()
+		})
+		w.take()
+		w.hold = true
+		go func() {
+			for i := 0; i < n; i++ {
+				w.h.ServeIncoming(w.msg("1", fmt.Sprintf("112=t%d", i)))
+			}
+		}()
+		time.Sleep(time.Second)
+		vsched.Settle()
+		w.hold = false
+		w.release <- struct{}{}
+		time.Sleep(time.Second)
+		vsched.Settle()
+		outs = w.take()
+	}
+	sc.Check = func(r *vsched.Result) (string, string) {
+		k := 0
+		for _, o := range outs {
+			if !wellFormed(o.Msg) {
+				return "malformed-outbound", show(o.Msg)
+			}
+			if mtype(o.Msg) != "0" {
+				continue
+			}
+			id, _ := get(o.Msg, "112")
+			if id != fmt.Sprintf("t%d", k) {
+				return "stall:answers-out-of-request-order", fmt.Sprintf("answer %d echoes %q: %s", k, id, outsStr(outs))
+			}
+			k++
+		}
+		if k != n {
+			return fmt.Sprintf("stall:heartbeat-count:%d!=%d", k, n), outsStr(outs)
+		}
+		return "", ""
+	}
+	sc.Outcome = func() string { return fmt.Sprintf("stall answers=%d", len(outs)) }
+	return sc
+}
+
 func runC14(R *vlib.Out) {
 	cfgs := c14Cfgs(*vlib.Tier)
 	if *vlib.ReplayPath != "" {
+		var probe struct {
+			Scenario string `json:"scenario"`
+		}
+		vlib.LoadReplay(&probe)
+		if probe.Scenario == "c14s" {
+			replaySched(R, c14StallScenario)
+			finishSched(R)
+			return
+		}
 		replayHist(R, cfgs)
 		return
 	}
+	bound := 1
+	if *vlib.Tier == "thorough" {
+		bound = 2
+	}
+	for _, role := range []string{"acc", "ini"} {
+		sc := c14StallScenario("c14s", map[string]any{"role": role, "n": 8})
+		sc.Bound = bound
+		scenarioBudget = vlib.Remaining() / 6
+		exploreSched(R, sc)
+	}
+	scenarioBudget = 0
 	for _, c := range cfgs {
 		exploreHist(R, c)
 	}
